@@ -203,6 +203,9 @@ func (c *c01) DumpCase(seed uint64, idx int) []Case {
 		if r.chance(80) {
 			cfg.MutualTypesMissing = true
 		}
+		if !cfg.RuleFuzz && r.chance(120) {
+			cfg.PathRuleFuzz = true
+		}
 		switch r.n(11) {
 		case 10:
 			cfg.MacroLadder = 8 + r.n(28)
